@@ -53,6 +53,22 @@ fn gen_c15(o: &mut Out, tier: &str, seed: u64) {
         for (a, b, c) in [(&x, &x, &y), (&x, &y, &y), (&x, &y, &x), (&x, &x, &x), (&z, &z, &z), (&x, &z, &z)] {
             o.op("close.same-address", &format!("ix close {} {} {}", hex(a), hex(b), hex(c)));
         }
+        // the all-zero address (the system program id) is an address like any other, in every slot
+        for vi in [1usize, 7, 12] {
+            let (pti, dsz, _) = PT_SIZES[vi % PT_SIZES.len()];
+            let data = r.bytes(dsz);
+            for (a, b) in [(&z, &y), (&x, &z), (&z, &z)] {
+                o.op("verify.ctx.zero-address", &format!("ix verify {} {} {} {} {}", vi, pti, hex(&data), hex(a), hex(b)));
+                o.op("acct.ctx.zero-address", &format!("ix acct {} {} {} {} {}", vi, hex(&x), 9, hex(a), hex(b)));
+                o.op("acct.ctx.zero-address", &format!("ix acct {} {} {} {} {}", vi, hex(&z), 9, hex(a), hex(b)));
+            }
+            o.op("acct.noctx.zero-address", &format!("ix acct {} {} {} - -", vi, hex(&z), 9));
+            for fill in [0xffu8, 0x01] {
+                let f = vec![fill; 32];
+                o.op("acct.ctx.constant-address", &format!("ix acct {} {} {} {} {}", vi, hex(&f), 9, hex(&f), hex(&f)));
+                o.op("close.constant-address", &format!("ix close {} {} {}", hex(&f), hex(&f), hex(&f)));
+            }
+        }
         for vi in [0usize, 5, 12] {
             let (pti, dsz, _) = PT_SIZES[vi % PT_SIZES.len()];
             let data = r.bytes(dsz);
